@@ -111,3 +111,19 @@ _reg(
     "DESIGN.md 3/C11",
     "Exploration over every registered component x opsets 21..27. ORT 1.30 cannot execute opset > 24 fully; for those opsets the numeric part is inconclusive and only schema/checker/inference decide.",
 )
+
+_reg(
+    "C04",
+    "exploration",
+    "cases = registered testcases that declare string dimensions + 36 shape-arithmetic programs (flatten, merge/split, outer product, "
+    "size-1 broadcasting, concat of B and N, dims used as values incl. products/sums/floordiv/mod, arange/tile/pad/broadcast_to/eye over a "
+    "symbol, contraction over a symbol, reductions/scan over a symbolic axis, function boundary with symbolic inputs, layout flags with "
+    "symbolic batch, three symbols). Each program is exported once; the model is executed for every point of a binding lattice "
+    "(1 symbol: {1,2,3,5,8,13}; 2 symbols: 7 points incl. equal / unequal / size-1; 3 symbols: 9 points; thorough adds primes up to 31 and 64) "
+    "and compared with eager JAX on arrays of that size (values and runtime shapes). evaluations = (program, binding) executions compared; "
+    "non-trivial = >= 1 finite element compared; distinct = (program, binding).",
+    (1200, 1000, 6000, 5000),
+    "differential runtime monitor over a lattice of symbol bindings: ORT outputs and runtime shapes vs eager JAX on arrays of the bound size",
+    "DESIGN.md 3/C04",
+    "Exploration over all registered symbolic-dimension programs and a hand-written shape-arithmetic family; one export, many bindings.",
+)
